@@ -60,11 +60,18 @@ def build(seed, tier):
     scripts = sorted(grd_pool.SCRIPTS)
     subs = sorted(grd_pool.SUBMISSIONS)
     gradings = []
+    # swarm: 4 histories in 10 stay mostly inside one family of scripts (same kind of process-wide state)
+    family = None
+    if r.random() < 0.4:
+        family = grd_pool.FAMILIES[r.choice(sorted(grd_pool.FAMILIES))]
     for i in range(n):
         if gradings and r.random() < 0.25:
             g = dict(r.choice(gradings))       # forced repeat of an earlier (script, submission, env, fault)
+            if family and r.random() < 0.5:
+                g['submission_name'] = r.choice(subs)      # same script over another student, as the pipelines do
         else:
-            g = {'script_name': r.choice(scripts), 'submission_name': r.choice(subs),
+            g = {'script_name': r.choice(family) if family and r.random() < 0.75 else r.choice(scripts),
+                 'submission_name': r.choice(subs),
                  'env': r.choice(['standard', 'standard', 'standard', 'blockpy', 'blockpy', 'terminal', 'terminal', 'gradescope']),
                  'rng': r.randint(1, 10 ** 6)}
             if rf.random() < 0.3:
